@@ -19,7 +19,7 @@ def ops_all():
             ops.append(('args', k, h))
     for c in range(3):
         for i in range(3):
-            for m in ('s', 'n'):
+            for m in ('s', 'n') + (('sn',) if i < 2 else ()):
                 ops.append(('insert', c, i, m))
         for m in ('s', 'n', 'a', 'sn', 'g', 'i'):
             ops.append(('append', c, m))
